@@ -171,7 +171,19 @@ let run_srv (line_parts : string list) : string =
     let nudge = { sf_kind = KWinUpd; sf_flags = N0; sf_sid = N0; sf_len = n_of_int 4; sf_payload = [];
                   sf_dep = N0; sf_code = N0; sf_inc = n_of_int 1; sf_set_hastable = false; sf_set_table = n_of_int 4096;
                   sf_set_haswin = false; sf_set_win = n_of_int 65535 } in
+    (* a burst "M f ~ f ~ ..." is replayed frame by frame (only used where the outcome does not depend on the schedule) *)
+    let evs = List.concat_map (fun ev ->
+        let ev = String.trim ev in
+        if String.length ev > 2 && String.sub ev 0 2 = "M " then
+          let fs = split_on_string " ~ " (String.sub ev 2 (String.length ev - 2)) in
+          List.mapi (fun i f -> if i = List.length fs - 1 then "MF " ^ f else "Mf " ^ f) fs
+        else [ev]) evs in
+    let in_burst = ref false in
+    let skip_burst_rest = ref false in   (* the connection went in the middle of the burst being replayed *)
     List.iter (fun ev ->
+        if String.length ev > 3 && String.sub ev 0 3 = "Mf " && !closed then ()
+        else if String.length ev > 3 && String.sub ev 0 3 = "MF " && !closed && !skip_burst_rest then skip_burst_rest := false
+        else
         if !closed then begin
           if String.trim ev = "RS" && !closed_gated then begin
             (* the stream loop is let go after the connection went: it works through its queue *)
@@ -185,6 +197,7 @@ let run_srv (line_parts : string list) : string =
           end else groups := "-" :: !groups
         end else begin
           let t = Array.of_list (List.filter (fun x -> x <> "") (String.split_on_char ' ' ev)) in
+          let t = if t.(0) = "Mf" || t.(0) = "MF" then (in_burst := (t.(0) = "Mf"); Array.sub t 1 (Array.length t - 1)) else (in_burst := false; t) in
           (match t.(0) with
            | "GS" ->
              step (EvRL (RFrame nudge)); step EvSL; gated := true
@@ -209,12 +222,15 @@ let run_srv (line_parts : string list) : string =
              step (EvRL RLEof);
              step EvSL
            | _ -> ());
+          if !in_burst && not (sl_exited () || rl_exited ()) then ()
+          else
           if t.(0) = "E" then begin
             closed := true;
             groups := "RET" :: !groups
           end else if sl_exited () || rl_exited () then begin
             (* the server is on its way out: the connection gets closed *)
             closed := true;
+            skip_burst_rest := !in_burst;
             closed_gated := !gated;
             flush_group ["E"; "RET"] false
           end else flush_group [] true
